@@ -27,7 +27,7 @@ import sys
 import tempfile
 
 from bv.common import Property, Failure, time_limit, exc_name, CaseTimeout, Driver
-from bv.props.fsspy import Spy
+from bv.props.fsspy import Spy, OsProxy, _abs
 
 DEST = 'dest.txt'
 PART = 'dest.txt.part'
@@ -369,6 +369,174 @@ def sys_events(text, dest):
     return evs, calls
 
 
+# ------------------------------------------------------------------------------------------------------------
+# The WINDOWS branch (`if os.name == 'nt':` - replace() with ReplaceFile, atomic_rename) cannot run here as it is.
+# It is run as a second copy of boltons/fileutils.py executed from the CURRENT source text in a module of its own,
+# whose `import os` yields a stand-in with `os.name == 'nt'` and the Windows semantics of `os.rename` (it never
+# replaces: EEXIST), whose `import ctypes` yields a stand-in with `windll.kernel32.ReplaceFile[W]` / `MoveFileExW`
+# (ReplaceFile: fails when the destination does not exist, else replaces it in one step - performed by the real
+# os.rename of this machine), and without `fcntl`.  No source pattern is matched: whatever the module does under
+# `os.name == 'nt'` is what runs.  ASSUMPTION (stated in the meta file): these stand-ins are the Windows kernel.
+_WIN = {'spy': None}
+
+
+def _win_rename(src, dst, *a, **k):
+    if os.path.lexists(dst):
+        raise FileExistsError(errno.EEXIST, 'Cannot create a file when that file already exists', os.fspath(src), 183, os.fspath(dst))
+    return os.rename(src, dst, *a, **k)
+
+
+class WinOsStub:
+    """`os` of the Windows copy while no recorder is installed"""
+    name = 'nt'
+
+    def __getattr__(self, name):
+        if name == 'rename':
+            return _win_rename
+        return getattr(os, name)
+
+
+class WinOsProxy(OsProxy):
+    """`os` of the Windows copy under the recorder: as fsspy.OsProxy, plus `name` and the Windows `rename`"""
+
+    def __getattr__(self, name):
+        if name == 'name':
+            return 'nt'
+        if name == 'rename':
+            spy = self.__dict__['_spy']
+
+            def rename(src, dst, *a, **k):
+                return spy.counted('os.rename', _win_rename, (src, dst) + a, k, [_abs(src), _abs(dst)])
+            return rename
+        return super().__getattr__(name)
+
+
+class _WinApi:
+    """a kernel32 entry point: counted like an os call when a recorder is installed"""
+
+    def __init__(self, name, fn):
+        self.name, self.fn = name, fn
+        self.argtypes = self.restype = self.errcheck = None
+
+    def __call__(self, *args):
+        args = tuple(getattr(a, 'value', a) for a in args)
+        spy = _WIN['spy']
+        if spy is None:
+            return self.fn(*args)
+        src, dst = (args[1], args[0]) if self.name.startswith('ReplaceFile') else (args[0], args[1])
+
+        def real(*a):
+            r = self.fn(*a)
+            spy.log[-1]['ret'] = r
+            return r
+        return spy.counted('win.' + self.name, real, args, {}, [_abs(src), _abs(dst)])
+
+
+def _replace_file(dst, src, backup=None, flags=0, exclude=None, reserved=None):
+    if not os.path.lexists(dst) or not os.path.lexists(src):
+        return 0                                  # ERROR_FILE_NOT_FOUND
+    os.rename(src, dst)
+    if backup:
+        return 0                                  # (backups are not simulated)
+    return 1
+
+
+def _move_file_ex(src, dst, flags=0):
+    if os.path.lexists(dst) and not (flags & 1):  # MOVEFILE_REPLACE_EXISTING
+        return 0
+    try:
+        os.rename(src, dst)
+    except OSError:
+        return 0
+    return 1
+
+
+def _fake_ctypes():
+    import types
+
+    class _Box:
+        def __init__(self, value=None):
+            self.value = value
+    ct = types.ModuleType('ctypes')
+    wt = types.ModuleType('ctypes.wintypes')
+    for n in ('c_wchar_p', 'c_char_p', 'c_void_p', 'c_int', 'c_uint', 'c_ulong', 'c_bool'):
+        setattr(ct, n, type(n, (_Box,), {}))
+    for n in ('DWORD', 'LPVOID', 'BOOL', 'LPCWSTR', 'LPWSTR', 'HANDLE'):
+        setattr(wt, n, type(n, (_Box,), {}))
+    k32 = types.SimpleNamespace(ReplaceFile=_WinApi('ReplaceFile', _replace_file), ReplaceFileW=_WinApi('ReplaceFileW', _replace_file),
+                                MoveFileExW=_WinApi('MoveFileExW', _move_file_ex), MoveFileEx=_WinApi('MoveFileEx', _move_file_ex))
+    ct.windll = types.SimpleNamespace(kernel32=k32)
+    ct.WinDLL = lambda *a, **k: k32
+    ct.WinError = lambda *a, **k: OSError(errno.EIO, 'simulated Windows error')
+    ct.get_last_error = ct.GetLastError = lambda: 2
+    ct.FormatError = lambda *a: 'simulated Windows error'
+    ct.wintypes = wt
+    return ct, wt
+
+
+def win_module():
+    """boltons/fileutils.py executed as on Windows (cached per process)"""
+    if 'mod' in _WIN:
+        return _WIN['mod']
+    import builtins
+    import types
+    import boltons.fileutils as fu
+    with open(fu.__file__, encoding='utf-8') as fh:
+        src = fh.read()
+    stub = WinOsStub()
+    ct, wt = _fake_ctypes()
+
+    def imp(name, globals=None, locals=None, fromlist=(), level=0):
+        if level == 0 and name == 'os':
+            return stub
+        if level == 0 and name == 'ctypes':
+            return ct
+        if level == 0 and name == 'ctypes.wintypes':
+            return wt if fromlist else ct
+        if level == 0 and name in ('fcntl', 'posix', 'pwd', 'grp'):
+            raise ImportError('no module named %s on Windows' % name)
+        return builtins.__import__(name, globals, locals, fromlist, level)
+    mod = types.ModuleType('boltons.fileutils_nt')
+    mod.__file__ = fu.__file__
+    mod.__package__ = 'boltons'
+    b = dict(vars(builtins))
+    b['__import__'] = imp
+    mod.__dict__['__builtins__'] = b
+    exec(compile(src, fu.__file__, 'exec'), mod.__dict__)
+    _WIN['mod'], _WIN['stub'] = mod, stub
+    return mod
+
+
+class WinSpy(Spy):
+    """the recorder, installed into the Windows copy"""
+
+    def install(self):
+        fuw = win_module()
+        self._installed = fuw
+        fuw.os = WinOsProxy(self)
+        fuw.open = self._builtin_open
+        _WIN['spy'] = self
+        return self
+
+    def uninstall(self):
+        fuw = self._installed
+        if fuw is not None:
+            fuw.os = _WIN['stub']
+            try:
+                del fuw.open
+            except AttributeError:
+                pass
+        _WIN['spy'] = None
+        self._installed = None
+
+    def _event(self, rec):
+        if rec['call'].startswith('win.'):
+            if not rec['ok'] or not rec.get('ret'):
+                return 'n'                         # the call reported failure: no effect
+            return 'R' if [self.role(q) for q in rec['paths']] == ['part', 'dest'] else '?'
+        return super()._event(rec)
+
+
 def classify(old, new, cur):
     """a absent, o old content, n new content, b both (old == new), X anything else"""
     if cur is None:
@@ -554,6 +722,26 @@ class C04(Property):
         yield dict(base, dest=self.PRESENT, pname='./' + DEST, owp=1, raises=1)
         yield dict(base, dest=None, pname=DEST, ow=0, txt=1, sizes=[3, 70000])
 
+    def win_cases(self):
+        """the Windows branch of replace() / atomic_rename(), run from the current source against stand-ins for the
+        Windows `os.rename` (never replaces) and `ReplaceFile` (see win_module)"""
+        base, W = self.BASE, self.with_ops
+        for ow, dest, raises, txt, sizes in itertools.product((1, 0), (None, self.PRESENT), (0, 1), (0, 1), ([5], [3, 70000])):
+            yield dict(base, win=1, ow=ow, dest=dest, raises=raises, txt=txt, sizes=sizes)
+        for dest in (None, self.PRESENT, [0o444, 11]):
+            yield dict(base, win=1, dest=dest, part=1, owp=1)
+            yield dict(base, win=1, dest=dest, rm=0, raises=1)
+            yield dict(base, win=1, dest=dest, perms=0o600, sizes=[])
+            yield dict(base, win=1, dest=dest, cls=1, pname='custom.tmp')
+            yield dict(base, win=1, dest=dest, reuse=1)
+            yield W(dict(base, win=1, dest=dest), ['w5', 'close'])
+            yield W(dict(base, win=1, dest=dest), ['w5', 'fsync', 'w3', 'seek0'])
+        # the publishing primitives of the Windows branch called directly
+        for fn, ow, dest in itertools.product(('atomic_rename', '_atomic_rename', 'replace'), (1, 0), (None, self.PRESENT)):
+            if fn == 'replace' and not ow:
+                continue
+            yield dict(base, win=1, kind='mv', fn=fn, ow=ow, dest=dest, sizes=[7])
+
     def fault_cases(self, fb, second):
         """one operating-system failure at every call of the save `fb`, for every errno of the family that makes
         the save behave differently; `second`: also a second failure at every later call"""
@@ -618,6 +806,7 @@ class C04(Property):
         yield from self.body_cases()
         yield from self.instance_cases()
         yield from self.name_cases()
+        yield from self.win_cases()
         # read-only / mode-0 destinations (replacing them needs no write permission on the file itself)
         for mode, ow, raises in itertools.product((0o444, 0o400, 0), (1, 0), (0, 1)):
             yield dict(base, dest=[mode, 11], ow=ow, raises=raises, sizes=[3, 4])
@@ -943,7 +1132,9 @@ class C04(Property):
         d, dest = self.prepare(case)
         try:
             plan = {f[0]: f[1] for f in (case.get('fault'), case.get('fault2')) if f} or None
-            spy = Spy(dest, plan=plan)
+            if case.get('win'):
+                fu = win_module()
+            spy = (WinSpy if case.get('win') else Spy)(dest, plan=plan)
             try:
                 self.do_save(fu, dest, case, spy)
             except BODY_EXC:
@@ -1034,7 +1225,10 @@ class C04(Property):
                         try:
                             try:
                                 os.umask(case['umask'])
-                                self.do_save(fu, destk, case, Spy(destk, kill_at=k, plan=plan))
+                                if case.get('win'):
+                                    self.do_save(win_module(), destk, case, WinSpy(destk, kill_at=k, plan=plan))
+                                else:
+                                    self.do_save(fu, destk, case, Spy(destk, kill_at=k, plan=plan))
                             except BaseException:
                                 pass
                         finally:
@@ -1125,7 +1319,7 @@ class C04(Property):
             return Failure('unexpected-exception', 'atomic_save raised %s' % obs['out'][4:])
         if body_closes(case):
             st['closing_bodies'] = st.get('closing_bodies', 0) + 1
-        for key in ('reuse', 'rel', 'pathlib', 'pname', 'fault2', 'prior', 'cls'):
+        for key in ('reuse', 'rel', 'pathlib', 'pname', 'fault2', 'prior', 'cls', 'win'):
             if case.get(key):
                 st['with:' + key] = st.get('with:' + key, 0) + 1
         if 'intrude' in (case.get('ops') or ()):
@@ -1236,6 +1430,9 @@ class C04(Property):
             cases += [self.with_ops(dict(self.BASE, dest=dest, txt=txt, rm=rm, raises=raises), ops)
                       for dest, txt, rm, raises, ops in itertools.product((None, self.PRESENT), (0, 1), (1, 0), (0, 1),
                                                                           (['w5', 'close'], ['w3', 'w70000', 'with'], ['close']))]
+            # ... and the Windows copy against the model's saverTraceNt
+            cases += [dict(self.BASE, win=1, ow=ow, dest=dest, raises=raises, rm=rm, sizes=[3, 4])
+                      for ow, dest, raises, rm in itertools.product((1, 0), (None, self.PRESENT), (0, 1), (1, 0))]
             lines, obs_ev = [], []
             for c in cases:
                 o = self.impl(c, kills=False)
@@ -1245,7 +1442,7 @@ class C04(Property):
                 lines.append(' '.join(['T', '%d%d%d%d' % (c['ow'], c['owp'], c['rm'], c['txt']),
                                        '-' if c['perms'] is None else str(c['perms']), str(c['umask']), dest,
                                        str(c['part']), str(min(c['raises'], 1)), ','.join(map(str, c['sizes'])) or '-']
-                                      + (['closed'] if body_closes(c) else [])))
+                                      + (['closed'] if body_closes(c) else []) + (['nt'] if c.get('win') else [])))
                 obs_ev.append(' '.join(e for e in o['events'] if e != 'n'))
             outs = drv.query(lines)
             same = sum(1 for a, b in zip(outs, obs_ev) if ' '.join(t for t in a.split() if t != 'n') == b)
